@@ -589,6 +589,8 @@ def _icc_to_dict(field_data):
 
         field_length_raw = field_data[field_pointer:field_pointer+1]
         LOGGER.debug(f"{field_length_raw=}")
+        if not field_length_raw:
+            raise Iso8583DataError(f'Missing ICC field length for TAG{field_tag_display.upper().decode()}')
         field_length = struct.unpack(">B", field_length_raw)[0]
 
         LOGGER.debug("%s", format(field_tag_display))
